@@ -51,12 +51,16 @@ type ccWorld struct {
 	ids   map[string]int
 }
 
-func newCCWorld() (*ccWorld, error) {
+func newCCWorld() (*ccWorld, error) { return newCCWorldOpts(ChanOpts{}) }
+
+// newCCWorldOpts: both channels configured with the given options (switches that do not concern the
+// protocol under test must not change it)
+func newCCWorldOpts(o ChanOpts) (*ccWorld, error) {
 	w := NewWorld()
-	if _, err := w.AddToken("TT", ChanOpts{}); err != nil {
+	if _, err := w.AddToken("TT", o); err != nil {
 		return nil, err
 	}
-	if _, err := w.AddToken("VT", ChanOpts{}); err != nil {
+	if _, err := w.AddToken("VT", o); err != nil {
 		return nil, err
 	}
 	cw := &ccWorld{w: w, nonce: 1700000000000, chN: map[string]int{"TT": 1, "VT": 2, "XX": 3}, grpN: map[string]int{"": 0, "G1": 1}, ids: map[string]int{}}
